@@ -51,7 +51,7 @@ var table = map[string]cfg{
 	"C10": {quick: 4000, thorough: 20000, shards: 16, quickTO: 4 * m, thorTO: 25 * m},
 	"C11": {quick: 4000, thorough: 20000, shards: 16, quickTO: 4 * m, thorTO: 25 * m},
 	"C12": {quick: 1200, thorough: 4000, shards: 16, quickTO: 4 * m, thorTO: 25 * m},
-	"C13": {quick: 250, thorough: 600, shards: 16, quickTO: 6 * m, thorTO: 40 * m, race: true},
+	"C13": {quick: 60, thorough: 250, shards: 16, quickTO: 6 * m, thorTO: 40 * m, race: true},
 	"C14": {quick: 3000, thorough: 12000, shards: 16, quickTO: 4 * m, thorTO: 25 * m},
 	"C15": {quick: 2500, thorough: 10000, shards: 16, quickTO: 4 * m, thorTO: 30 * m},
 	"C16": {quick: 4000, thorough: 12000, shards: 16, quickTO: 4 * m, thorTO: 30 * m, fuzz: []string{"FuzzC16"}, fuzzTime: 90 * time.Second},
@@ -67,7 +67,7 @@ func env(extra ...string) []string {
 	for _, kv := range os.Environ() {
 		k := strings.SplitN(kv, "=", 2)[0]
 		switch k {
-		case "GOFLAGS", "GOPROXY", "GOSUMDB", "GOTOOLCHAIN", "VERIF_ROOT", "VERIF_SHARD", "VERIF_SHARDS", "VERIF_TIER", "VERIF_REPLAY":
+		case "GOFLAGS", "GOPROXY", "GOSUMDB", "GOTOOLCHAIN", "VERIF_ROOT", "VERIF_SHARD", "VERIF_SHARDS", "VERIF_TIER", "VERIF_REPLAY", "VERIF_CHILD":
 			continue
 		}
 		e = append(e, kv)
@@ -213,6 +213,7 @@ var (
 )
 
 type outcome struct {
+	prop       string
 	violations []string // replay paths
 	whats      []string
 	harness    []string
@@ -240,6 +241,19 @@ func (o *outcome) absorb(label string, r procResult) {
 			n, _ := strconv.ParseInt(mm[1], 10, 64)
 			o.passed += n
 		}
+	}
+	if lastFail == "" && strings.Contains(r.out, "WARNING: DATA RACE") {
+		// the race detector reports through the test binary, not through a property failure: keep the report
+		// as the replay artefact (TestReplay<prop> re-runs the concurrent steps when given such a file)
+		i := strings.Index(r.out, "WARNING: DATA RACE")
+		rep := r.out[i:]
+		if len(rep) > 6000 {
+			rep = rep[:6000]
+		}
+		b, _ := json.MarshalIndent(map[string]any{"property": o.prop, "what": "data race reported by the Go race detector", "input": map[string]any{"race_report": rep}}, "", " ")
+		name := filepath.Join(root, "replays", fmt.Sprintf("%s-race-%s.json", o.prop, strings.ReplaceAll(label, " ", "")))
+		_ = os.WriteFile(name, b, 0o644)
+		lastFail, lastWhat = name, "what=data race reported by the Go race detector (see replay file for the report)"
 	}
 	switch {
 	case lastFail != "":
@@ -290,8 +304,18 @@ func check(prop, tier string) int {
 		return 2
 	}
 	defer os.Remove(bin)
+	// child processes (cold parses, work scaling) use a binary without race instrumentation: a
+	// race-instrumented process needs ~1.5 s to start, a plain one ~50 ms
+	childBin := bin
+	if c.race {
+		if cb, _, err := build(prop+"-child", false); err == nil {
+			childBin = cb
+			defer os.Remove(cb)
+		}
+	}
+	os.Setenv("VERIF_CHILD_EXE", childBin)
 
-	o := &outcome{known: map[string]bool{}}
+	o := &outcome{prop: prop, known: map[string]bool{}}
 	to := c.quickTO
 	nChecks, shards := c.quick, 1
 	if tier == "thorough" {
@@ -414,7 +438,7 @@ func replay(prop, file string) int {
 	r := runProc(ctx, filepath.Join(root, "checks"), env("VERIF_REPLAY="+abs, "VERIF_SHARD=300"), bin,
 		"-test.run", "^TestReplay"+prop+"$", "-test.v", "-test.count=1")
 	fmt.Println(tail(r.out, 80))
-	o := &outcome{known: map[string]bool{}}
+	o := &outcome{prop: prop, known: map[string]bool{}}
 	o.absorb("replay", r)
 	if len(o.violations) > 0 {
 		fmt.Printf("VIOLATION property=%s replay=%s %s\n", prop, abs, o.whats[0])
